@@ -603,3 +603,14 @@ impl CandidType for std::time::Duration {
         Ok(())
     }
 }
+
+/// Verification hooks (compiled only with `--cfg dfinity_candid_verif`; never part of a normal build).
+#[cfg(dfinity_candid_verif)]
+#[doc(hidden)]
+pub mod verif_hooks {
+    /// exposes the private element-width table of the bulk little-endian writer
+    #[cfg(target_endian = "little")]
+    pub fn fixed_primitive_byte_size_of<T: super::CandidType>() -> Option<usize> {
+        super::fixed_primitive_byte_size::<T>()
+    }
+}
